@@ -42,6 +42,7 @@ func (a *A) skipperOrdering() *ssa.Call {
 	sites := a.dynCallsOfType("PacketSkipper")
 	a.R.Floor(rule, "call sites of a PacketSkipper value", len(sites), 1)
 	var sk *ssa.Call
+	var pktVal ssa.Value // the packet handed to the skipper, as a value of parsePacket
 	{
 		const key = "parsePacket/skipper-called-once"
 		var bad []string
@@ -50,7 +51,15 @@ func (a *A) skipperOrdering() *ssa.Call {
 		}
 		for _, s := range sites {
 			if s.Fn != pp {
-				bad = append(bad, "a PacketSkipper is called in "+short(s.Fn)+" at "+a.ipos(s.In))
+				// the consultation moved into a helper `func(s PacketSkipper, p *Packet) bool { return s != nil && s(p) }`
+				if hc, hp, why := a.skipperHelper(pp, s); hc != nil {
+					sk, pktVal = hc, hp
+					if inCycle(hc.Block()) {
+						bad = append(bad, "the skipper helper is called inside a loop of parsePacket")
+					}
+				} else {
+					bad = append(bad, "a PacketSkipper is called in "+short(s.Fn)+" at "+a.ipos(s.In)+" ("+why+")")
+				}
 				continue
 			}
 			c, ok := s.In.(*ssa.Call)
@@ -60,6 +69,9 @@ func (a *A) skipperOrdering() *ssa.Call {
 			}
 			if sk == nil {
 				sk = c
+				if len(c.Call.Args) > 0 {
+					pktVal = c.Call.Args[0]
+				}
 			}
 			if inCycle(c.Block()) {
 				bad = append(bad, "the skipper call is inside a loop of parsePacket")
@@ -81,7 +93,7 @@ func (a *A) skipperOrdering() *ssa.Call {
 	if sk == nil {
 		return nil
 	}
-	pkt := sk.Call.Args[0]
+	pkt := pktVal
 	pos := a.ipos(sk)
 	// header first
 	{
@@ -230,6 +242,69 @@ func (a *A) skipperOrdering() *ssa.Call {
 			strings.Join(bad, "; "))
 	}
 	return sk
+}
+
+// skipperHelper: s is the package's PacketSkipper call site and lives in a helper h. The helper form is accepted when h calls its own
+// skipper parameter on its own packet parameter, outside any loop; every return of h yields either the constant false on the
+// skipper == nil edge or the call's result itself; and parsePacket calls h exactly once with its skipper parameter. It returns that
+// call of h in parsePacket and the packet argument (values of parsePacket).
+func (a *A) skipperHelper(pp *ssa.Function, s site) (*ssa.Call, ssa.Value, string) {
+	h := s.Fn
+	c, ok := s.In.(*ssa.Call)
+	if !ok || len(c.Call.Args) != 1 {
+		return nil, nil, "not a plain call with one argument"
+	}
+	si, pi := -1, -1
+	for i, prm := range h.Params {
+		if c.Call.Value == ssa.Value(prm) {
+			si = i
+		}
+		if c.Call.Args[0] == ssa.Value(prm) {
+			pi = i
+		}
+	}
+	if si < 0 || pi < 0 {
+		return nil, nil, "the helper does not call its own skipper parameter on its own packet parameter"
+	}
+	if inCycle(c.Block()) {
+		return nil, nil, "the call is inside a loop of the helper"
+	}
+	for _, ret := range ssau.Returns(h) {
+		if len(ret.Results) != 1 {
+			return nil, nil, "the helper does not return one boolean"
+		}
+		for _, l := range ssau.Leaves(ret.Results[0]) {
+			if l == ssa.Value(c) {
+				continue
+			}
+			if b, isB := ssau.ConstBool(l); isB && !b {
+				continue
+			}
+			return nil, nil, "the helper returns something other than the skipper's answer or false"
+		}
+	}
+	// the call is made whenever the skipper is non-nil: from the non-nil edge of the nil test every return passes the call
+	guarded := false
+	for _, ed := range ssau.DominatingEdges(c.Block()) {
+		if nc, ok := ssau.AsNilCompare(ed.If.Cond); ok && nc.X == c.Call.Value && (ed.Succ == 0) == nc.Ne {
+			nonNil := ed.If.Block().Succs[ed.Succ]
+			if escapesWithout(nonNil, map[*ssa.BasicBlock]bool{c.Block(): true}, isExit) == nil {
+				guarded = true
+			}
+		}
+	}
+	if !guarded {
+		return nil, nil, "a non-nil skipper is not consulted on every path of the helper"
+	}
+	sites, other := a.callSites(h)
+	if len(other) > 0 || len(sites) != 1 || sites[0].Fn != pp {
+		return nil, nil, "the helper is not called exactly once, from parsePacket"
+	}
+	hc, ok := sites[0].In.(*ssa.Call)
+	if !ok || !isParam(pp, hc.Call.Args[si]) {
+		return nil, nil, "parsePacket does not hand its own skipper parameter to the helper"
+	}
+	return hc, hc.Call.Args[pi], ""
 }
 
 func isParam(f *ssa.Function, v ssa.Value) bool {
